@@ -1780,6 +1780,14 @@ impl SctpInner {
             debug!("SCTP: ignoring INIT ACK on an established association");
             return Ok(());
         }
+        // RFC 4960 5.2.3: an INIT ACK is taken in COOKIE-WAIT only, i.e. while the T1
+        // timer still carries our INIT. Once it has been answered with COOKIE ECHO a
+        // duplicated copy must not rewind the receive state: DATA may already have
+        // arrived (the peer is established as soon as it sees the COOKIE ECHO).
+        if !matches!(*self.t1_chunk.lock(), Some((CT_INIT, _, _))) {
+            debug!("SCTP: ignoring INIT ACK outside COOKIE-WAIT");
+            return Ok(());
+        }
         self.t1_cancel();
 
         let mut buf = chunk;
